@@ -133,7 +133,10 @@ def rule_writer_finder(ck: Check, repo: Repo, folder: Folder) -> None:
     c08.rule_place_header(ck, repo, "R5")
     # whether the first run leaves a blank line after the header (existing-header flag = a header block was found) decides
     # what the second run takes for the header block (shared with C08-R3)
-    c08.rule_shebang(ck, repo, "R8")
+    try:
+        c08.rule_shebang(ck, repo, "R8")
+    except AnalysisError as err:
+        ck.defer(err)   # undecided first-line mechanism: the remaining rules still run
 
 
 def rule_finder_predicate(ck: Check, repo: Repo, rid: str = "R6") -> None:
